@@ -251,3 +251,40 @@ META = {
 }
 
 NOT_APPLICABLE = {}
+
+# Rules added while testing against seeded changes (appended to the texts above).
+EXTRA = {
+    "C01": "Also: the lookup has no fallback key (a miss under the state name is a miss); the SAX handler binds each XML "
+           "field to the attribute of the same meaning, aliasing copies in the documented direction, user-supplied files go "
+           "through the same path.",
+    "C02": "Also: the integrality guard comes after every parameter assignment; patches other than PEPTIDE act on a private "
+           "copy of the reference; no chain/residue/atom list is structurally modified while iterated in the terminus code; "
+           "a blank-chain file with one TER record has two chains.",
+    "C03": "Also shares the ingestion rules of C07 (residue identity, first alternate location, every record appended, "
+           "create_residue unfiltered) and patch isolation.",
+    "C04": "The selection procedure is evaluated on the topology model by the guard engine whatever its code shape.",
+    "C05": "Also: the C(i-1)/N(i+1) frame pointers survive an iteration of update_bonds only when the C-N distance is within "
+           "the limit on every path (free tests explored both ways), and the limit lies strictly between the templates' "
+           "bonded C-N length and their nearest 1-3 distance.",
+    "C06": "Also: pKa and pH reach the comparison unmodified (value flow); patch isolation.",
+    "C07": "Also: every ATOM/HETATM record read is appended to a residue (no filter on altLoc, occupancy, element); the record "
+           "type is decided by the record-name columns.",
+    "C08": "Also: every PQR print site forwards --keep-chain to the formatter.",
+    "C09": "Also: waters are removed iff --drop-water; x/y/z/charge/radius occupy one fixed column span on all formatter paths, "
+           "so formatting flags cannot move what column-based consumers read.",
+    "C10": "Also: every atom_site row is visited (full-range loops, no early exit, rows selected by model number only).",
+    "C12": "Also: the integrality guard is a must-pass placed after every parameter assignment; patch isolation.",
+    "C13": "Also: the neighbour query that feeds detection scans at least the bonding limit (cell size >= limit, full pair "
+           "scan); patch isolation.",
+    "C14": "R1/R3 evaluate the key and neighbourhood code by a statement evaluator (shape tolerant); the query itself never "
+           "writes the cell map.",
+    "C15": "Also: dihedral()'s snap-to-planar window acos(1-eps) folds to less than the 0.05 degree tolerance. The Jacobi sweep "
+           "cap is not decided.",
+    "C16": "Also: per-cycle charge updates are computed from the start-of-cycle charges only and applied once; the first of "
+           "equivalent atoms is the one looked up.",
+    "C17": "Running extrema are decided semantically (min takes the lower, max the upper bound on every path).",
+    "C18": "Chunk index emission is interpreted on the code as written (any loop shape); rows have the documented length; the "
+           "reader's per-file state is fresh for every call.",
+}
+for _k, _v in EXTRA.items():
+    META[_k]["text"] += " " + _v
